@@ -37,6 +37,21 @@ Det(A) == IF Len(A) = 0 THEN "1"
 IsPSD(A) == IsSymmetric(A) /\ \A S \in (SUBSET (1..Len(A))) \ {{}} : RLe("0", Det(SubMat(A, SetToSortSeq(S, <))))
 IsPD(A)  == IsSymmetric(A) /\ \A k \in 1..Len(A) : RLt("0", Det(SubMat(A, [i \in 1..k |-> i])))
 
+\* pivots of the LDL^T factorisation without pivoting (Schur complements); a symmetric matrix is positive
+\* definite iff all are > 0.  Stops (returns the pivots so far) at a non-positive pivot.
+RECURSIVE LDLPivots(_)
+LDLPivots(A) ==
+  IF Len(A) = 0 THEN <<>>
+  ELSE LET p == A[1][1] IN
+       IF ~RLt("0", p) THEN <<p>>
+       ELSE LET n == Len(A)
+                S == [i \in 1..(n - 1) |-> [j \in 1..(n - 1) |-> RSub(A[i + 1][j + 1], RDiv(RMul(A[i + 1][1], A[1][j + 1]), p))]]
+            IN <<p>> \o LDLPivots(S)
+\* positive semi-definite up to the absolute slack eps: A + eps*I is positive definite
+IsPSDWithin(A, eps) == LET B == [i \in DOMAIN A |-> [j \in DOMAIN A |-> IF i = j THEN RAdd(A[i][j], eps) ELSE A[i][j]]]
+                           pv == LDLPivots(B)
+                       IN Len(pv) = Len(A) /\ \A k \in DOMAIN pv : RLt("0", pv[k])
+
 \* Gauss-Jordan elimination on the augmented matrix [A | B]; returns X with A X = B (A square, non-singular)
 RECURSIVE Eliminate(_, _)
 Eliminate(M, k) ==
